@@ -5,6 +5,8 @@ this module manage node (start server, add peer, ...)
 .. seealso:: Examples in :file:`examples/node`
 """
 
+from copy import copy
+
 from circuits import BaseComponent, Timer, handler
 from circuits.net.events import connect
 
@@ -227,5 +229,9 @@ class Node(BaseComponent):
         if node is None:
             # not a connection of this node (every Node sees every remote event)
             return None
+        # (a copy goes over the wire: the channels the event is to be fired on
+        # at the peer are not those of the local event object, whose own
+        # notifications must still find their listeners)
+        remote_event = copy(remote_event)
         remote_event.channels = (channel,) if channel is not None else event.channels
         return node.send(remote_event)
